@@ -156,24 +156,45 @@ def exec_parser(src: str, cls: str = NAME + 'Parser'):
     return ns[cls]
 
 
-def artefacts() -> dict:
-    import tatsu
+_JOB: dict = {}
+
+
+def _build(which: str):
+    """one of the four parsers on the grammar file -> serialised model (runs in a forked worker)"""
     from tatsu.boot import bootparser
     from tatsu.boot.boot import TatSuParserGenerator
     from tatsu.peg.semantics import GrammarSemantics
+    text, M, boot_src = _JOB['text'], _JOB['M'], _JOB['boot_src']
+    if which == 't_generated':
+        m = TatSuParserGenerator(NAME).parse(text)
+    elif which == 't_interp':
+        m = M.parse(text, start='start', semantics=GrammarSemantics(NAME))
+    elif which == 't_bootparser':
+        m = bootparser.TatSuBootstrapParser().parse(text, semantics=GrammarSemantics(NAME))
+    elif which == 't_regen':
+        m = exec_parser(boot_src)(semantics=GrammarSemantics(NAME)).parse(text)
+    else:
+        raise Shape(which)
+    return which, model_tree(m)
+
+
+def artefacts() -> dict:
+    import multiprocessing as mp
+    import tatsu
+    from tatsu.boot import bootparser
     text = ebnf_text()
     M = tatsu.compile(text, name=NAME)
     G = bootparser.GRAMMAR_MODEL
-    P = TatSuParserGenerator(NAME).parse(text)
-    I = M.parse(text, start='start', semantics=GrammarSemantics(NAME))
-    B = bootparser.TatSuBootstrapParser().parse(text, semantics=GrammarSemantics(NAME))
     boot_src, bootparser_src = regenerate()
-    R = exec_parser(boot_src)(semantics=GrammarSemantics(NAME)).parse(text)
+    trees = {'t_boot_model': model_tree(G), 't_boot_model_opt': model_tree(G.optimized()), 't_compiled': model_tree(M),
+             't_compiled_opt': model_tree(M.optimized())}
+    _JOB.update(text=text, M=M, boot_src=boot_src)
+    jobs = ['t_generated', 't_interp', 't_bootparser', 't_regen']
+    with mp.get_context('fork').Pool(4) as pool:           # four independent parses of the grammar file (2 s each)
+        for which, t in pool.map(_build, jobs, chunksize=1):
+            trees[which] = t
     return {
-        'models': {
-            't_boot_model': G, 't_boot_model_opt': G.optimized(), 't_compiled': M, 't_compiled_opt': M.optimized(),
-            't_generated': P, 't_interp': I, 't_bootparser': B, 't_regen': R,
-        },
+        'model_trees': trees,
         'py': {
             'py_bootstrap': (REPO / 'tatsu' / 'boot' / 'bootstrap.py').read_text(),
             'py_bootstrap_regen': boot_src,
@@ -367,15 +388,15 @@ def rules_coq(name: str, rules, out: list):
     out.append(f'Definition {name} : list (str * exp) := [{"; ".join(names)}].')
 
 
-def translate():
+def translate(arts=None):
     """-> (coq source, info dict for the harness)"""
-    arts = artefacts()
+    if arts is None:
+        arts = artefacts()
     _strings.clear()
     out: list[str] = []
     info: dict = {'sizes': {}}
     trees = {}
-    for name, m in arts['models'].items():
-        t = model_tree(m)
+    for name, t in arts['model_trees'].items():
         trees[name] = t
         info['sizes'][name] = tree_size(t)
         term = tree_coq(t, out, name, hoist=1)
@@ -398,8 +419,8 @@ def translate():
         out.append(f'Definition {name} : btree := Node {coq_str(t[0])} [{attrs}] [{"; ".join(stmts)}].')
         out.append('')
     M = arts['M']
-    rules, pats = to_exp(M)
-    rules_o, pats_o = to_exp(M.optimized())
+    _, pats = to_exp(M)
+    _, pats_o = to_exp(M.optimized())
     allp = list(pats)
     for p in pats_o:
         if p not in allp:
@@ -436,16 +457,15 @@ def to_exp_with(model, table):
     return [(n, fix(e)) for n, e in rules], table
 
 
-_last_info = None
-
-
-def main():
-    global _last_info
-    src, info = translate()
-    _last_info = info
+def write(src: str):
     OUT.parent.mkdir(exist_ok=True)
     if not OUT.exists() or OUT.read_text() != src:       # unchanged content keeps the .vo (make goes by timestamps)
         OUT.write_text(src)
+
+
+def main():
+    src, info = translate()
+    write(src)
     return info
 
 
